@@ -157,6 +157,7 @@ static struct pqueue(struct emit_blk *) emit_q;
 static struct pqueue(struct out_blk *) reord_q;
 static struct deque(struct head_blk) order_q;
 static struct pqueue(struct unord_blk *) unord_q;
+static unsigned unord_cap;      /* capacity of unord_q */
 static bool parse_token;
 static bool parsing_done;
 static struct pqueue(struct detached_bitstream *) scan_q;
@@ -802,7 +803,16 @@ do_scan(void)
     return;
   }
 
-  if (pos_le(bs->pos, parser_bs.pos)) {
+  if (size(unord_q) >= unord_cap && !pos_le(bs->pos, parser_bs.pos)) {
+    /* The table of unconfirmed candidates is full.  Its capacity assumes that
+       every entry is backed by a work unit or an output slot, but entries of
+       retrieve jobs that were dropped after falling behind the parser stay in
+       the table until the parser passes them.  Candidates are only hints, so
+       ignore this one; the parser finds the block anyway if it is real. */
+    Trace(("Scanner ignored a pattern, too many unconfirmed candidates"));
+    work_units++;
+  }
+  else if (pos_le(bs->pos, parser_bs.pos)) {
     Trace(("Scanner found a known pattern at {%lu}",
            32ul + 32ul * bs->offset - bs->live));
     VERIF_EVENT(VE_SCAN_HIT, bs->pos.major, bs->pos.minor, 1);
@@ -912,8 +922,9 @@ init(void)
   pqueue_init(scan_q, in_slots);
   pqueue_init(retr_q, work_units);
   pqueue_init(emit_q, work_units);
-  pqueue_init(unord_q, (work_units + out_slots > UNORD_THRESH ?
-                        work_units + out_slots - UNORD_THRESH : 0));
+  unord_cap = (work_units + out_slots > UNORD_THRESH ?
+               work_units + out_slots - UNORD_THRESH : 0);
+  pqueue_init(unord_q, unord_cap);
   deque_init(order_q, work_units + out_slots);
   pqueue_init(reord_q, out_slots);
 
